@@ -482,7 +482,15 @@ class Formatter(BaseFormatter):
 
         _fmt = cls.gen_format(_fmt)
         if _search := re.search(rf"^{_fmt}\Z", _value):
-            return cls(_search.groupdict(), set_strict_mode=strict)
+            try:
+                return cls(_search.groupdict(), set_strict_mode=strict)
+            except (ValueError, ArithmeticError) as err:
+                # NOTE: the value fits the pattern but it is not a possible
+                #   value, such as 30 February or an empty number.
+                raise FormatterValueError(
+                    f"value {_value!r} match with format {_fmt!r} but it "
+                    f"does not valid: {err}"
+                ) from err
 
         raise FormatterValueError(
             f"value {_value!r} does not match with format {_fmt!r}"
@@ -1912,6 +1920,24 @@ class Version(Formatter, level=4, fmt="%m_%n_%c"):
         if self.local:
             _release = f"{_release}+{self.local}"
         return _release
+
+    def validate(self) -> bool:
+        """Validate method that validate the version string that was built
+        from all Version attributes in initialize layer.
+
+        :raises FormatterValueError: If the version string does not valid for
+            the packaging version, such as a zero-padded release number.
+
+        :rtype: bool
+        :returns: True if the version string is valid.
+        """
+        try:
+            VerPackage.parse(self.string)
+        except ValueError as err:
+            raise FormatterValueError(
+                f"Parsing value does not valid with version: {err}"
+            ) from err
+        return True
 
     @property
     def priorities(
@@ -3770,7 +3796,13 @@ class FormatterGroup:
         rs: dict[str, DictStr] = defaultdict(dict)
         for g in parser_rs:
             rs[g.split("__")[0]] |= parser_rs[g]["props"]
-        return cls(formats=rs)
+        try:
+            return cls(formats=rs)
+        except (ValueError, ArithmeticError) as err:
+            raise FormatterGroupValueError(
+                f"value {value!r} match with format {fmt!r} but it does not "
+                f"valid: {err}"
+            ) from err
 
     @classmethod
     def __parse(
